@@ -8,6 +8,7 @@ import (
 	"fmt"
 	"io"
 	"net"
+	"os"
 	"sync"
 	"time"
 
@@ -26,6 +27,15 @@ type segConn struct {
 	wrote  bytes.Buffer
 	ch     chan struct{}
 	taken  int // bytes handed to readers so far
+	touts  int // pending read-deadline expiries
+}
+
+// timeout makes the read that is waiting for bytes return os.ErrDeadlineExceeded once.
+func (c *segConn) timeout() {
+	c.mu.Lock()
+	c.touts++
+	c.mu.Unlock()
+	c.ch <- struct{}{}
 }
 
 func newSegConn() *segConn { return &segConn{ch: make(chan struct{}, 1<<16)} }
@@ -53,6 +63,12 @@ func (c *segConn) Read(p []byte) (int, error) {
 			return n, nil
 		}
 		closed := c.closed
+		if c.touts > 0 && !closed {
+			c.touts--
+			c.mu.Unlock()
+
+			return 0, os.ErrDeadlineExceeded
+		}
 		c.mu.Unlock()
 		if closed {
 			return 0, io.EOF
@@ -194,10 +210,13 @@ func newFramerSys(meta Meta, seed int64, init any) (Sys, error) {
 		s.frames = append(s.frames, fr)
 		s.bytes = append(s.bytes, fr...)
 	}
-	if s.mode == "framer" {
+	if s.mode == "framer" || s.mode == "framer1600" {
 		sc := proto.NewSTUNConn(s.conn)
 		go func() {
 			buf := make([]byte, 70000) // one buffer reused across calls, as Server.readLoop does
+			if s.mode == "framer1600" {
+				buf = make([]byte, 1600) // the server's read loop (default inbound MTU): some frames are larger
+			}
 			zero := 0
 			// a panic inside the packetiser is a result like any other (reported as an error of the read that raised it)
 			defer func() {
@@ -208,8 +227,13 @@ func newFramerSys(meta Meta, seed int64, init any) (Sys, error) {
 			for {
 				n, _, err := sc.ReadFrom(buf)
 				r := frameRes{n: n, err: err}
-				if n > 0 && n <= len(buf) {
-					r.data = append([]byte{}, buf[:n]...)
+				if n > 0 {
+					r.data = append([]byte{}, buf[:min(n, len(buf))]...)
+				}
+				if errors.Is(err, os.ErrDeadlineExceeded) { // the deadline passed: report it, the stream goes on
+					s.res <- r
+
+					continue
 				}
 				if err == nil && n == 0 {
 					zero++
@@ -249,6 +273,19 @@ func (s *framerSys) Close() {
 }
 
 func (s *framerSys) Do(a map[string]any, wait func()) ([]Obs, error) {
+	if a["a"] == "Timeout" {
+		s.conn.timeout()
+		wait()
+		var obs []Obs
+		for {
+			select {
+			case r := <-s.res:
+				obs = append(obs, Obs{"k": "frame", "n": r.n, "data": r.data, "err": r.err, "spin": r.spin})
+			default:
+				return obs, nil
+			}
+		}
+	}
 	if a["a"] != "Feed" {
 		return nil, fmt.Errorf("unknown framer action %v", a["a"])
 	}
@@ -326,6 +363,13 @@ func (s *framerSys) Check(e Edge, obs []Obs) []Mismatch {
 		o := obs[i]
 		i++
 		err, _ := o["err"].(error)
+		if idx == -1 {
+			if !errors.Is(err, os.ErrDeadlineExceeded) {
+				ms = append(ms, Mismatch{"framer", fmt.Sprintf("the read deadline passed while a frame was incomplete: n=%v err=%v instead of the timeout", o["n"], err)})
+			}
+
+			continue
+		}
 		if idx == 0 {
 			if err == nil {
 				ms = append(ms, Mismatch{"framer", fmt.Sprintf("bytes that cannot begin a frame were returned as data (n=%v)", o["n"])})
@@ -340,7 +384,7 @@ func (s *framerSys) Check(e Edge, obs []Obs) []Mismatch {
 			ms = append(ms, Mismatch{"framer", fmt.Sprintf("frame %d: error %v instead of the frame", idx, err)})
 		case toInt(o["n"]) != len(want):
 			ms = append(ms, Mismatch{"framer", fmt.Sprintf("frame %d: returned %v bytes, the frame has %d", idx, o["n"], len(want))})
-		case !bytes.Equal(data, want):
+		case !bytes.Equal(data, want[:min(len(want), len(data))]) || (len(data) < len(want) && s.mode != "framer1600"):
 			ms = append(ms, Mismatch{"framer", fmt.Sprintf("frame %d: bytes differ from what was sent", idx)})
 		}
 	}
